@@ -203,7 +203,33 @@ def run(chk: core.Check):
     m = model[-1]
     if (st, nf) != (m[1], m[2]):
         chk.disagree("run_test ladder: continue_on_failure with a failed check", {"cof": True}, (st, nf), (m[1], m[2]))
-    chk.stages["ladder"] = {"arms": len(cases) + 1}
+    # the marks add_examples leaves on the test (examples phase): an example that cannot be used is an error of the run even when
+    # the other examples of the operation pass
+    mark_cases = []
+    for n_good, bad_at in [(1, 0), (1, 1), (2, 1), (0, 0)]:
+        values = [f"good{i}" for i in range(n_good)]
+        values.insert(bad_at, "line\nbreak")
+        mark_cases.append(("invalid_headers", values, "ENone" if n_good else "ESkipTest"))
+    m_exprs = [f"ladder {cls} {c_flags(headers=True)}" for _, _, cls in mark_cases]
+    m_model = core.coq_eval(IMPORTS, m_exprs)
+    for (kind, values, cls), m in zip(mark_cases, m_model):
+        raw = {"openapi": "3.0.2", "info": {"title": "t", "version": "1"}, "paths": {"/r0/{id}": {"get": {
+            "operationId": "op0",
+            "parameters": [{"name": "id", "in": "path", "required": True, "schema": {"type": "integer"}, "example": 7},
+                           {"name": "X-Tag", "in": "header", "schema": {"type": "string"}, "examples": {f"e{i}": {"value": v} for i, v in enumerate(values)}}],
+            "responses": {"200": {"description": "ok"}}}}}}
+        evs, reqs = run_engine(raw, U.make_responder(["ok"]), phases=["examples"], workers=1, max_examples=2, seed=3)
+        fin = [e for e in evs if event_kind(e) == "ScenarioFinished"]
+        nf = [e for e in evs if event_kind(e) == "NonFatalError"]
+        phase = [e for e in evs if event_kind(e) == "PhaseFinished" and e.phase.name.name == "EXAMPLES"]
+        st, nfn, ph = (fin[0].status.name if fin else None, len(nf), phase[0].status.name if phase else None)
+        chk.seen({"ladder_mark": kind, "examples": values}, True)
+        if (st, nfn) != (m[1], m[2]):
+            chk.disagree(f"run_test with the mark {kind} of add_examples (class {cls})", {"mark": kind, "header_examples": values}, (st, nfn), (m[1], m[2]))
+        if ph not in ("FAILURE", "ERROR"):
+            chk.fail(f"a header example could not be sent (mark {kind}) but the phase is reported {ph}: the dropped example is not reported",
+                     {"mark": kind, "header_examples": values, "requests_sent": len(reqs)})
+    chk.stages["ladder"] = {"arms": len(cases) + 1, "mark_cases": len(mark_cases)}
 
     # ---- (c) CLI: exit code
     n_cli = (10 if quick else 100) * (5 if chk.broken else 1)
